@@ -14,10 +14,9 @@ package chain
 //     directory holding the factory's post-genesis memorydb files (types.GetTestGenesis stamps
 //     the genesis block with time.Now, so two fresh nodes never share a genesis otherwise);
 //   * consensus stub / hub with recording fake components;
-//   * after every addBlock whose block failed in tx execution the pending result of the tx
-//     sign verifier is drained (the real code leaves it in the channel and the next block
-//     consumes the stale result; draining keeps the engine deterministic and lets the
-//     verifier be stopped without a send on a closed channel);
+//   * the tx sign verifier is no longer drained by the engine after an addBlock (the repaired
+//     BlockValidator.ValidateBody drains a stale result itself); only stop() still waits for a
+//     pending result so that the verifier channels are not closed under a running collector;
 //   * "rawtx" is the raw tx index entry (TxIdx decoded from the store), not cdb.getTx, so that a
 //     dangling index entry stays visible; "heights" is capped at height vHeightCap (the raw
 //     key scan reports every height key above best.no whatever its value);
@@ -36,6 +35,7 @@ import (
 	"encoding/hex"
 	"encoding/json"
 	"fmt"
+	"io"
 	"math/big"
 	"os"
 	"path/filepath"
@@ -87,6 +87,8 @@ type vCase struct {
 	OrphanCap int          `json:"orphan_cap"`
 	Mode      string       `json:"mode"`
 	Winner    string       `json:"winner"`
+	Partial   string       `json:"partial"` // crash mode: "none" | "ends" | "all" (cuts inside a bulk)
+	Recrash   string       `json:"recrash"` // crash mode: "none" | "units" | "ops" (crash during recovery)
 }
 
 const vHeightCap = 64 // "heights" lists 0..min(maxNo+2, vHeightCap); the raw scan covers the rest
@@ -184,6 +186,7 @@ type vEngine struct {
 	baseState map[string][]byte
 	accts     []*vAcct
 	txCache   map[vTxKey]*types.Tx
+	badSig    map[vTxKey]*types.Tx
 	seq       int
 	progress  string
 }
@@ -218,11 +221,19 @@ func newVEngine() (*vEngine, error) {
 			base = "/dev/shm"
 		}
 	}
+	// an engine killed by os.Exit (RecoverExit) or a timeout leaves its directory behind
+	if old, _ := filepath.Glob(filepath.Join(base, "verif-chaindb-*")); base != "" {
+		for _, d := range old {
+			if st, err := os.Stat(d); err == nil && time.Since(st.ModTime()) > 6*time.Hour {
+				os.RemoveAll(d)
+			}
+		}
+	}
 	tmp, err := os.MkdirTemp(base, "verif-chaindb-")
 	if err != nil {
 		return nil, err
 	}
-	e := &vEngine{tmp: tmp, baseDir: filepath.Join(tmp, "base"), txCache: map[vTxKey]*types.Tx{}}
+	e := &vEngine{tmp: tmp, baseDir: filepath.Join(tmp, "base"), txCache: map[vTxKey]*types.Tx{}, badSig: map[vTxKey]*types.Tx{}}
 	serverCtx := config.NewServerContext("", "")
 	cfg := serverCtx.GetDefaultConfig().(*config.Config)
 	cfg.DbType = "memorydb"
@@ -277,8 +288,25 @@ func (e *vEngine) tx(from, to int, amt int64, nonce uint64) *types.Tx {
 	return t
 }
 
+// badSigTx: a correctly formed transfer whose signature has one flipped byte (last byte of the
+// DER encoding, i.e. of S) and whose Hash field is consistent with the corrupted body.
+func (e *vEngine) badSigTx(from, to int, amt int64, nonce uint64) *types.Tx {
+	k := vTxKey{from, to, amt, nonce}
+	if t, ok := e.badSig[k]; ok {
+		return t
+	}
+	good := e.tx(from, to, amt, nonce)
+	t := good.Clone()
+	t.Body.Sign = vFlip(good.Body.Sign)
+	t.Hash = t.CalculateTxHash()
+	e.badSig[k] = t
+	return t
+}
+
 // newNode starts a real ChainService on dir (memorydb files written by vWriteSnapshot).
-func (e *vEngine) newNode(dir string) (n *vNode, perr string) {
+func (e *vEngine) newNode(dir string) (n *vNode, perr string) { return e.newNodeT(dir, "memorydb") }
+
+func (e *vEngine) newNodeT(dir string, dbType string) (n *vNode, perr string) {
 	defer func() {
 		if r := recover(); r != nil {
 			n, perr = nil, fmt.Sprint(r)
@@ -289,6 +317,7 @@ func (e *vEngine) newNode(dir string) (n *vNode, perr string) {
 	}()
 	c := *e.baseCfg
 	c.DataDir = dir
+	c.DbType = dbType
 	dfltUseMempool = false
 	cs := NewChainService(&c)
 	cc := &vConsensus{cdb: cs.cdb}
@@ -302,7 +331,9 @@ func (e *vEngine) newNode(dir string) (n *vNode, perr string) {
 	return &vNode{cs: cs, cc: cc, rec: rec}, ""
 }
 
-// drainVerifier: see the header comment.
+// drainVerifier waits for the verification result a block that failed in tx execution left
+// pending; used only by stop(), so that SignVerifier.Stop does not close its channels while the
+// collector goroutine of that block is still sending.
 func (n *vNode) drainVerifier() {
 	v := n.cs.validator
 	if v.isNeedWait {
@@ -431,6 +462,17 @@ func (e *vEngine) build(c *vCase) (*vCtx, error) {
 			b.execOK = false
 		case "txroot":
 			blk.Header.TxsRootHash = vFlip(blk.Header.TxsRootHash)
+			b.execOK = false
+		case "sig":
+			// one extra transfer with the correct next nonce whose signature is corrupted after
+			// signing; tx.Hash covers Body.Sign (Tx.CalculateTxHash) and is recomputed, so the
+			// tx-root check and executeTx's hash check pass and only the signature is wrong.
+			to := 1
+			if c.Naccts < 2 {
+				to = 0
+			}
+			blk.Body.Txs = append(blk.Body.Txs, e.badSigTx(0, to, 1, b.cnt[0]+1))
+			blk.Header.TxsRootHash = types.CalculateTxsRootHash(blk.Body.Txs)
 			b.execOK = false
 		default:
 			return nil, fmt.Errorf("block %s: unknown bad kind %q", spec.Name, spec.Bad)
@@ -810,6 +852,16 @@ func (e *vEngine) observe(n *vNode, x *vCtx) map[string]interface{} {
 	sort.Strings(orphans)
 	s["orphans"] = orphans
 	s["marker"] = len(cdb.store.Get(dbkey.ReOrg())) != 0
+	// ancestor search of the syncer: first listed hash that is stored and on the main chain
+	var hashes [][]byte
+	for i := len(x.order) - 1; i >= 0; i-- {
+		hashes = append(hashes, x.blks[x.order[i]].id)
+	}
+	hashes = append(hashes, e.genesis.BlockHash())
+	s["anc"] = ""
+	if bi, err := cs.findAncestor(hashes); err == nil && bi != nil {
+		s["anc"] = hx(bi.Hash)
+	}
 	pred, _ := e.predicates(n, x)
 	scan, p3 := e.rawScan(n, x)
 	pred = append(pred, p3...)
@@ -833,7 +885,6 @@ func (e *vEngine) arrive(n *vNode, x *vCtx, i int) map[string]interface{} {
 	_, e0 := n.cs.cdb.getBlock(b.id)
 	before := e0 == nil
 	err := vSafeAdd(n, b.clone())
-	n.drainVerifier()
 	_, e1 := n.cs.cdb.getBlock(b.id)
 	after := e1 == nil
 	s := e.observe(n, x)
@@ -1002,7 +1053,6 @@ func (e *vEngine) winner(n *vNode, x *vCtx, out map[string]interface{}, last map
 			if err := vSafeAdd(r, b.clone()); err != nil {
 				errs = append(errs, b.name+": "+err.Error())
 			}
-			r.drainVerifier()
 		}
 		for k, v := range e.final(r, x) {
 			ref[k] = v
@@ -1031,6 +1081,24 @@ func (e *vEngine) winner(n *vNode, x *vCtx, out map[string]interface{}, last map
 
 // ---------------------------------------------------------------------------- test entry
 
+// vHookLogger turns logger.Fatal() of package chain (os.Exit(1), e.g. Core.init "failed to
+// initialize chaindb") into a panic carrying the message, so that a node that cannot start is
+// reported as init_panic instead of killing the engine.  zerolog runs hooks before it arms the
+// os.Exit, but only for enabled events, hence the global level Fatal instead of Disabled; the
+// output of the chain logger goes to io.Discard (Panic-level events still panic with their message).
+func vHookLogger() {
+	out := io.Writer(io.Discard)
+	if os.Getenv("VERIF_CHAINDB_LOG") != "" {
+		out = os.Stderr
+	}
+	l := logger.Logger.Output(out).Hook(zerolog.HookFunc(func(ev *zerolog.Event, level zerolog.Level, msg string) {
+		if level == zerolog.FatalLevel {
+			panic("FATAL(os.Exit 1): " + msg)
+		}
+	}))
+	*logger.Logger = l
+}
+
 func TestVerifChainDBEngine(t *testing.T) {
 	in, err := os.Open(os.Getenv("VERIF_IN"))
 	if err != nil {
@@ -1046,8 +1114,9 @@ func TestVerifChainDBEngine(t *testing.T) {
 	w := bufio.NewWriterSize(outf, 1<<20)
 	defer w.Flush()
 	if os.Getenv("VERIF_CHAINDB_LOG") == "" {
-		zerolog.SetGlobalLevel(zerolog.Disabled)
+		zerolog.SetGlobalLevel(zerolog.FatalLevel)
 	}
+	vHookLogger()
 	e, err := newVEngine()
 	if err != nil {
 		t.Fatal(err)
